@@ -4,6 +4,6 @@ P=$1; C=$2; T=${3:-quick}
 cd /repo || exit 2
 if [ -n "$(git status --porcelain)" ]; then echo "/repo not clean"; exit 2; fi
 git apply "$P" || { echo "patch does not apply"; exit 2; }
-cd /verif && ./run_check.sh "$C" "$T" > /tmp/try_seed.out 2>&1; rc=$?
+cd /verif && VCHECK_EVIDENCE_DIR=$(mktemp -d /tmp/seed_ev.XXXX) ./run_check.sh "$C" "$T" > /tmp/try_seed.out 2>&1; rc=$?
 git -C /repo checkout -- . ; git -C /repo clean -fdq
 echo "exit=$rc"; grep -c "^VIOLATION" /tmp/try_seed.out; grep "^VIOLATION\|violation:" /tmp/try_seed.out | cut -c1-260 | head -${4:-6}; tail -1 /tmp/try_seed.out | cut -c1-200
